@@ -107,6 +107,28 @@ example :
     filterApplies (.doc [("a.b", .doc [("$exists", .bool false)])]) (.doc [("a", .null)]) = .ok true := by
   decide +kernel
 
+/-- The empty field name is a field name (it was a scope limit of the model, and a defect of the
+    library: `{'': 1}` compared the whole document with `1`, so it missed `{'': 1}`).  Since the
+    repair every dot-separated component of a key, the empty one included, names a field: keys
+    like `''`, `'a.'`, `'.'`, `'a..b'` are inside D (the class `badkey` now only holds negative
+    array indexes), the matcher answers what the rules say, and the rules read `'a.'` as "the
+    field `''` inside `a`" — through arrays of sub-documents too. -/
+example :
+    inD (.doc [("", .int 2)]) (.doc [("", .int 2)]) = true ∧
+    filterApplies (.doc [("", .int 2)]) (.doc [("", .int 2)]) = .ok true ∧
+    specMatches (.doc [("", .int 2)]) (.doc [("", .int 2)]) = .ok true ∧
+    filterApplies (.doc [("", .int 2)]) (.doc [("a", .int 2)]) = .ok false ∧
+    inD (.doc [("a.", .doc [("$gt", .int 2)])])
+      (.doc [("a", .arr [.doc [("", .int 5)], .doc [("b", .int 7)]])]) = true ∧
+    filterApplies (.doc [("a.", .doc [("$gt", .int 2)])])
+      (.doc [("a", .arr [.doc [("", .int 5)], .doc [("b", .int 7)]])]) = .ok true ∧
+    inD (.doc [(".", .null)]) (.doc [("", .int 2)]) = true ∧
+    filterApplies (.doc [(".", .null)]) (.doc [("", .int 2)]) = .ok true ∧
+    inD (.doc [("a..b", .str "x")]) (.doc [("a", .doc [("", .doc [("b", .str "x")])])]) = true ∧
+    filterApplies (.doc [("a..b", .str "x")]) (.doc [("a", .doc [("", .doc [("b", .str "x")])])])
+      = .ok true := by
+  decide +kernel
+
 /-- `$elemMatch` stays outside D (a scope limit, no longer a known finding): its former witness
     `{c: {$elemMatch: {$size: 1}}}` on `{c: ["b", 2]}` went away with the `$size` repair. -/
 example :
@@ -157,7 +179,8 @@ theorem nor_is_neg_disj (qs : List Val) (d : Val) (bs : List Bool)
 /-- Path traversal: whenever the matcher follows a dotted path (it gives up only on a negative
     array index) it reaches exactly the values the rules say the path reaches — a branch that
     runs into null or a scalar counts as a missing field.  (False before the `deadend` repair:
-    `a.b` reached nothing in `{a: 5}`.) -/
+    `a.b` reached nothing in `{a: 5}`.)  The components are arbitrary strings: an empty one is a
+    field name like any other. -/
 theorem path_reaches_spec (ps : List String) (d : Val) (cs : List (Option Val))
     (h : cands ps d = .ok cs) : cs = reach ps d :=
   Proofs.C01.cands_eq_reach ps d cs h
@@ -170,6 +193,127 @@ example :
     (match cands ["a", "b"] (.doc [("a", .int 5)]) with
      | .ok cs => cs == [none]
      | .error _ => false) = true := by decide +kernel
+
+/-- The same for the key as the filter spells it — **every** key, no exclusion: the matcher
+    splits the key at its dots and each component, the empty one included, is a field name
+    (`''` is the field named `''`, `'a.'` the field `''` inside `a`, `'.'` the field `''` inside
+    the field `''`).  Before the repair "a filter looks the empty field name up like any other
+    field" the matcher ended the path at an empty remainder (`''` reached the document itself,
+    `'a.'` reached what `'a'` reaches) and the model gave no answer on such keys. -/
+theorem key_reaches_spec (key : String) (d : Val) (cs : List (Option Val))
+    (h : candsKey key d = .ok cs) : cs = reach (splitDots key) d :=
+  Proofs.C01.candsKey_eq_reach key d cs h
+
+example :
+    let reaches (key : String) (d : Val) (want : List (Option Val)) : Bool :=
+      match candsKey key d with
+      | .ok cs => cs == want
+      | .error _ => false
+    reaches "" (.doc [("", .int 1), ("a", .int 2)]) [some (.int 1)] = true ∧
+    reaches "" (.doc [("a", .int 2)]) [none] = true ∧
+    reaches "a." (.doc [("a", .arr [.doc [("", .int 3)], .doc [("", .arr [.int 4])], .int 7, .doc []])])
+      [some (.int 3), some (.arr [.int 4]), none] = true ∧
+    reaches "a.1." (.doc [("a", .arr [.int 0, .doc [("", .int 5)]])]) [some (.int 5)] = true ∧
+    reaches "." (.doc [("", .doc [("", .int 9)])]) [some (.int 9)] = true ∧
+    reaches "a..b" (.doc [("a", .int 5)]) [none] = true := by decide +kernel
+
+/-- On a document the empty key looks the field `''` up, and nothing else. -/
+theorem empty_key_is_a_field (fs : Fields) : candsKey "" (.doc fs) = .ok [dget "" fs] :=
+  Proofs.C01.candsKey_empty fs
+
+/-! ### Malformed filters: what is rejected whatever the document, and what still is not
+
+The rules reject a filter with a malformed part whatever the document is (`specMatches` raises).
+The matcher validates while it evaluates.  Since the repair "the operators of a condition are
+checked also when its key reaches no value" the operator *names* of a condition are checked once
+per key, before the candidates are looked at; what is still reached only by evaluation — names
+inside `$not` and `$elemMatch`, the operators' arguments, and every key that follows one that has
+already failed — is the known finding `lazyvalidation`. -/
+
+/-- An operator condition that holds a name which is no operator is rejected for **every** key
+    and **every** document — whatever the key reaches, nothing included (an index past the end of
+    an array, a field name over an array of scalars), and whatever the other operators of the
+    condition say (`$all` failing first, `$exists: false` on no value).  Before the repair the
+    check sat inside the loop over the reached values, so that `{'a.0': {$foo: 1}}` was accepted
+    on `{a: []}`.  (`$options` next to `$regex` is outside the model.) -/
+theorem unknown_operator_rejected (fs : Fields) (key : String) (d : Val)
+    (hops : isOpsFilter (.doc fs) = true)
+    (hunk : ∃ op, op ∈ dkeys fs ∧ operatorMapKeys.contains op = false ∧ op ≠ "$not")
+    (hopt : ¬ ("$options" ∈ dkeys fs ∧ "$regex" ∈ dkeys fs)) :
+    applyKey (.doc fs) key d = .error .opFail ∨ applyKey (.doc fs) key d = .error .notImpl :=
+  Proofs.C01.unknown_operator_rejected fs key d hops hunk hopt
+
+/-- the hypotheses hold for `{$all: [5], $foo: 1}` and `{$exists: false, $near: 1}`; on a key that
+    reaches nothing the first is an `OperationFailure`, the second a `NotImplementedError` -/
+example :
+    isOpsFilter (.doc [("$all", .arr [.int 5]), ("$foo", .int 1)]) = true ∧
+    (∃ op, op ∈ dkeys [("$all", Val.arr [.int 5]), ("$foo", .int 1)] ∧
+      operatorMapKeys.contains op = false ∧ op ≠ "$not") ∧
+    ¬ ("$options" ∈ dkeys [("$all", Val.arr [.int 5]), ("$foo", .int 1)] ∧
+       "$regex" ∈ dkeys [("$all", Val.arr [.int 5]), ("$foo", .int 1)]) ∧
+    applyKey (.doc [("$all", .arr [.int 5]), ("$foo", .int 1)]) "a.0" (.doc [("a", .arr [])])
+      = .error .opFail ∧
+    applyKey (.doc [("$exists", .bool false), ("$near", .int 1)]) "a.b" (.doc [("a", .arr [.int 1])])
+      = .error .notImpl :=
+  ⟨by decide +kernel, ⟨"$foo", by decide +kernel, by decide +kernel, by decide +kernel⟩,
+   by decide +kernel, by decide +kernel, by decide +kernel⟩
+
+/-- The full-strength statement about malformed filters: whatever the rules reject, the matcher
+    rejects (on the inputs the oracle expresses). -/
+def rejects_malformed_full : Prop :=
+  ∀ f d e, specMatches f d = .error e → e ≠ .unmodelled → ∃ e', filterApplies f d = .error e'
+
+/-- It is false of the code as it stands (known finding `lazyvalidation`): `{c: 1, $or: []}` is
+    accepted — and does not select — when `c` differs from 1, because the keys of a filter are
+    evaluated in order and the first one that fails ends the evaluation.  The same witness is
+    replayed on the real code by the check. -/
+theorem rejects_malformed_full_fails : ¬ rejects_malformed_full := by
+  intro h
+  obtain ⟨e', he⟩ := h (.doc [("c", .int 1), ("$or", .arr [])]) (.doc [("c", .int 2)]) .opFail
+    (by decide +kernel) (by decide)
+  have hok : filterApplies (.doc [("c", .int 1), ("$or", .arr [])]) (.doc [("c", .int 2)]) = .ok false := by
+    decide +kernel
+  rw [hok] at he
+  cases he
+
+/-- The other places that are reached by evaluation only (same finding): a name inside `$not`
+    or an argument of an operator on a key that reaches nothing, an argument behind an operator
+    of the same condition that already failed.  The rules reject each of these filters. -/
+example :
+    filterApplies (.doc [("a.0", .doc [("$not", .doc [("$foo", .int 1)])])]) (.doc [("a", .arr [])])
+      = .ok false ∧
+    specMatches (.doc [("a.0", .doc [("$not", .doc [("$foo", .int 1)])])]) (.doc [("a", .arr [])])
+      = .error .opFail ∧
+    filterApplies (.doc [("a.0", .doc [("$in", .int 5)])]) (.doc [("a", .arr [])]) = .ok false ∧
+    specMatches (.doc [("a.0", .doc [("$in", .int 5)])]) (.doc [("a", .arr [])]) = .error .opFail ∧
+    filterApplies (.doc [("a", .doc [("$gt", .int 1), ("$in", .int 5)])]) (.doc [("a", .int 0)])
+      = .ok false ∧
+    specMatches (.doc [("a", .doc [("$gt", .int 1), ("$in", .int 5)])]) (.doc [("a", .int 0)])
+      = .error .opFail := by
+  decide +kernel
+
+/-- **Partial (a condition made of one unknown operator).**  Whatever the key is and whatever it
+    reaches in the document, the matcher rejects the filter with the error the rules give
+    (`NotImplementedError` for an operator of MongoDB's vocabulary that the library does not
+    implement, `OperationFailure` for any other name). -/
+theorem rejects_malformed_partial (key op : String) (sv d : Val)
+    (hk : key.startsWith "$" = false) (hop : op.startsWith "$" = true)
+    (hunk : operatorMapKeys.contains op = false) (hn : op ≠ "$not") :
+    ∃ e, (e = .opFail ∨ e = .notImpl) ∧
+      filterApplies (.doc [(key, .doc [(op, sv)])]) d = .error e ∧
+      specMatches (.doc [(key, .doc [(op, sv)])]) d = .error e :=
+  Proofs.C01.unknown_single_eq_spec key op sv d hk hop hunk hn
+
+/-- non-vacuity: `{'a.0': {$foo: 1}}` and `{'': {$geoWithin: 1}}` on documents in which the key
+    reaches nothing (the first was accepted before the repair) -/
+example :
+    ("a.0".startsWith "$" = false ∧ "$foo".startsWith "$" = true ∧
+      operatorMapKeys.contains "$foo" = false ∧ "$foo" ≠ "$not") ∧
+    filterApplies (.doc [("a.0", .doc [("$foo", .int 1)])]) (.doc [("a", .arr [])]) = .error .opFail ∧
+    specMatches (.doc [("a.0", .doc [("$foo", .int 1)])]) (.doc [("a", .arr [])]) = .error .opFail ∧
+    filterApplies (.doc [("", .doc [("$geoWithin", .int 1)])]) (.doc [("a", .arr [])]) = .error .notImpl ∧
+    specMatches (.doc [("", .doc [("$geoWithin", .int 1)])]) (.doc [("a", .arr [])]) = .error .notImpl := by
+  decide +kernel
 
 /-- Equality to null also matches a missing field. -/
 theorem null_eq_missing (key : String) (d : Val) (h : candsKey key d = .ok [none]) :
